@@ -57,6 +57,15 @@ CLAIMS = {
         "(return, overflow, hijack, event stream, panic) every spill created is removed, at most one is created. Tied by an exhaustive small "
         "scope against the real Buffer plus middleware runs with a private TMPDIR.",
    note=TB + "File-system effects are modelled as events (create/remove). The exact-status clause of response buffering for arbitrary traces is shown by evaluation on examples and the correspondence run rather than a general theorem."),
+
+'C12': dict(engine='snapshot', technique='Lean 4 proof (invariant of the snapshot protocol over all interleavings and crash points; FileCurrent by induction over histories) + differential correspondence run at the real step boundaries',
+   text="Theorems: in the lock/list/temp/rename protocol, for every interleaving of any number of overlapping commands the state path only "
+        "ever changes by an atomic rename to a complete listing (a kill at any step boundary leaves a complete snapshot: the previous or the "
+        "new one), and whenever all started commands have returned the file is the snapshot of the configuration in force; at command "
+        "level every command that writes a snapshot leaves the file current and the others do not change the table. Tied by capturing the "
+        "state path at every snap.* step of real commands, restoring each capture in a fresh router, and by parking one command inside its "
+        "snapshot while another runs.",
+   note=TB + "The OS is modelled (atomic rename, kill between syscalls). T1 facts: saveStateSnapshot's step skeleton (lock, CreateTemp in the same directory, Rename)."),
 }
 
 NA_REASON = {}
